@@ -14,7 +14,7 @@ RULE = ('per configuration (sampling period and its unit, default unit, toleranc
         'events = gaps from P*{1-2tol, 1-tol, 1-tol/2, 1, 1+tol/2, 1+tol, 1+2tol, 2, 15/16, 17/16} and one reset() (dyadic, so interval membership is exact), counters kept '
         'in the state key; invariant on every transition: sampling_violation_counter == number of gaps outside [P(1-tol), P(1+tol)] (computed '
         'with exact fractions) and the returned robustness == reference rho (unaffected by jitter); offline: every sequence as the time column of '
-        'evaluate() on the offline and on the combined specification, and every pair of such sequences evaluated one after the other on the same object; '
+        'evaluate() on the offline and on the combined specification, and every pair of such sequences evaluated one after the other on the same object (in half of the pairs through one data set that the caller refills in place); '
         'switch layer: an object configured with one of 5 configurations, used, then switched to another one through spec.unit / set_sampling_period (online: after reset()) '
         'and used again - all ordered pairs, both setter orders, the counter must follow the configuration in force; non-trivial = the sequence has at least one in-tolerance and one out-of-tolerance gap')
 ASSUMPTIONS = ['time-stamps are expressed in the default unit of the specification; periods and tolerances dyadic',
@@ -210,20 +210,29 @@ def offline_repeat_check(res, mod, m, depth):
                 res.digest('offrep', h1, h2, combined, msg)
 
 
-def offline_repeat_case(m, h1, h2, combined):
+def offline_repeat_case(m, h1, h2, combined, reuse=None):
     spec = m.fresh('dt_off', combined)
+    if reuse is None:
+        reuse = (len(h1) + len(h2)) % 2 == 0
+    buf = {'time': [], 'x': []}      # reuse: the caller keeps one data set and refills its lists in place before the second evaluate()
     for h in (h1, h2):
         L = len(h)
         ts = [m.stamp(sum(h[:i + 1], Fr(0))) for i in range(L)]
         w = {'x': [m.value(i) for i in range(L)]}
-        kind, val = impl.outcome(impl.dt_evaluate, spec, w, ts)
+        if reuse:
+            buf['time'][:] = ts
+            buf['x'][:] = w['x']
+            kind, val = impl.outcome(spec.evaluate, buf)
+        else:
+            kind, val = impl.outcome(impl.dt_evaluate, spec, w, ts)
         if kind != 'ok':
             return 'evaluate() raised %s' % (val,)
     cnt = spec.sampling_violation_counter
     a, b = m.expected_count(h1), m.expected_count(h2)
     if cnt not in (a + b, b):
         return ('after evaluate() on two data sets with time columns built from the gaps %r and %r the counter is %r; the columns contain %d and %d '
-                'out-of-tolerance gaps (P=%s, tol=%s)' % ([float(g) for g in h1], [float(g) for g in h2], cnt, a, b, m.P, m.tol))
+                'out-of-tolerance gaps (P=%s, tol=%s)%s' % ([float(g) for g in h1], [float(g) for g in h2], cnt, a, b, m.P, m.tol,
+                                                        '; the caller used ONE data set, refilled in place' if reuse else ''))
     return None
 
 
